@@ -50,8 +50,17 @@ class CHECK(Check):
                 if any(t not in m.lexeme for t in s) or not m.simulate(s)[0]:
                     continue
                 out.append((d, m.text_of(s, numbered=True)))
-            # USING / SET option lists with the key names that grammar actions and printers treat specially
+            # names and literals that constructors might normalise (edge blanks, inner dots, capitals, quotes): one respelt lexeme per
+            # production-pair sentence and class (a copy rebuilt through a constructor must still equal the parsed tree)
             from vf import lexemes
+            edge = {'ID': ['` a`', '`a `', '`a.b`', '`A b`', '`a``b`'], 'DQUOTE_STRING': ['" a "', '"a.b"', '" "', '"A"'], 'QUOTE_STRING': ["' a '", "''", "'a''b'"],
+                    'VARIABLE': ['@` a `', "@'a.b'"], 'INTEGER': ['007'], 'FLOAT': ['1.50']}
+            for s in sorted(set(f.s0_pairs())):
+                if any(t not in m.lexeme for t in s) or not m.simulate(s)[0]:
+                    continue
+                for i, sp, text in lexemes.deviations(m, s, alts=edge, per_class_first_only=True, magic=False):
+                    out.append((d, text))
+            # USING / SET option lists with the key names that grammar actions and printers treat specially
             for text in f.kw_family(['abc'] + lexemes.MAGIC_IDS):
                 out.append((d, text))
             for t in ['select t.* from t', 'select * from int1.t1 join int2.t2 on t1.a = t2.a where t1.b = 1',
